@@ -1,0 +1,29 @@
+// +build verif
+
+package masswallet
+
+// Simulation hooks, compiled only with the "verif" build tag. A deterministic
+// simulator sets these variables to take over scheduling decisions at the
+// points where the notification handler and the background worker meet.
+
+// SimYield, when set, is called at named synchronisation points; the
+// simulator may park the calling goroutine there.
+var SimYield func(point string)
+
+// SimPreferQuit, when set and returning true, makes the handler and worker
+// loops poll the quit channel first (a legal refinement of select's random
+// choice among ready cases).
+var SimPreferQuit func() bool
+
+func simYield(point string) {
+	if f := SimYield; f != nil {
+		f(point)
+	}
+}
+
+func simPreferQuit() bool {
+	if f := SimPreferQuit; f != nil {
+		return f()
+	}
+	return false
+}
